@@ -122,7 +122,7 @@ def replay_behaviour(states, rng, tid):
             exactrec = False          # from here on the real detector may see more isometries than the model guarantees
         r = s.do(_op_of(act, rng, s))
         r["model"] = _model_of(st, exactrec)
-        if r["exc"]:
+        if r["exc"] or s.dead:
             break
     return s.recs
 
@@ -292,7 +292,7 @@ def walk(rng, s, length, exact=False):
             break
         r = s.do(op)
         n += 1
-        if r["exc"]:
+        if r["exc"] or s.dead:
             break
     return s.recs
 
@@ -336,6 +336,39 @@ def exact_history(seed, tid, length):
     return walk(rng, s, length, exact=True)
 
 
+def trace_selftest(ctx):
+    """the Trace spec must reject a corrupted observation (and accept the genuine one)"""
+    import copy
+    import os
+
+    rng = np.random.default_rng(5)
+    s = U.Sess(U.mps_from_arrays(U.random_arrays(rng, 4, 2, 3, "complex128")), "complex128", rng, 1)
+    s.init()
+    s.do({"ev": "canonicalize", "wi": 2, "wj": 2})
+    s.do({"ev": "schmidt_values", "i": 1})
+    good = copy.deepcopy(s.recs)
+    bad = copy.deepcopy(s.recs)
+    for r in bad:
+        r["tid"] = 2
+    bad[1]["rec"] = [0, 0]            # a record that the measured isometries do not support
+    bad2 = copy.deepcopy(s.recs)
+    for r in bad2:
+        r["tid"] = 3
+    bad2[1]["flags"][0]["iso"] = False  # a claim on a tensor that is not isometric
+    bad3 = copy.deepcopy(s.recs)
+    for r in bad3:
+        r["tid"] = 4
+    bad3[2]["q"]["val"] = 7           # a query result away from the dense value
+    path = ctx.write_trace(good + bad + bad2 + bad3, "selftest")
+    verdict, _ = T.validate_trace("C08_Trace", "Trace.cfg", ctx.spec_dir, path, scratch=ctx.scratch)
+    got = sorted((f["line"], f["clause"]) for f in verdict["fails"] if not f["clause"].startswith("NOTE:"))
+    want = [(5, "RecordSound"), (8, "FlagSound"), (12, "SchmidtValues")]
+    if got != want:
+        raise MachineryError("trace self-test: expected %s, got %s" % (want, got))
+    os.remove(path)
+    ctx.extra["trace_selftest"] = "corrupted record / claim rejected by the Trace spec: %s" % (got,)
+
+
 # ----------------------------------------------------------------------------- check
 
 def run(ctx):
@@ -355,6 +388,8 @@ def run(ctx):
             if r.violated not in want:
                 raise MachineryError("model self-test %s: expected %s to be violated, got %r" % (cfg, want, r.violated))
             ctx.extra.setdefault("model_selftests", []).append("%s: TLC finds a %s counterexample (%s)" % (cfg, r.violated, what))
+
+    trace_selftest(ctx)
 
     # 2. S->C: behaviours of the model (code as it is) replayed into quimb
     nsim = 90 if quick else 900
